@@ -88,5 +88,6 @@ def showOutcome : Apply.Outcome → String
   | .renameFailed _ => "renamefailed"
   | .rollbackFailed _ => "rollbackfailed"
   | .backupFailed => "backupfailed"
+  | .destExists => "destexists"
 
 end Wire
